@@ -23,7 +23,7 @@ Seed(scope, s, m, iv) ==
        cols == IF scope = "A" THEN 4 ELSE 5
    IN [rows |-> rows, cols |-> cols, win |-> IF scope = "A" THEN 1 ELSE 3, s |-> s, measure |-> m, band |-> 1,
        L |-> <<ImgB1>>, R |-> <<ImgB2>>, mL |-> ConstGrid(rows, cols, 0), mR |-> ConstGrid(rows, cols, 0),
-       dmin |-> ConstGrid(rows, cols, iv[1]), dmax |-> ConstGrid(rows, cols, iv[2]), gmin |-> iv[1], gmax |-> iv[2]]
+       dmin8 |-> ConstGrid(rows, cols, 8 * iv[1]), dmax8 |-> ConstGrid(rows, cols, 8 * iv[2]), gmin |-> iv[1], gmax |-> iv[2]]
 Init == /\ phase = 0
         /\ P \in {Seed("A", s, m, iv) : s \in {1, 2}, m \in (IF Thorough THEN {"sad", "ssd"} ELSE {"sad"}), iv \in Intervals}
                \cup {Seed("B", s, m, iv) : s \in {1, 2}, m \in {"sad", "census"}, iv \in Intervals}
@@ -37,7 +37,7 @@ Next == Fill
 
 Pixels == (1..P.rows) \X (1..P.cols)
 Mirror(Q) == [Q EXCEPT !.L = Q.R, !.R = Q.L, !.mL = Q.mR, !.mR = Q.mL,
-                       !.dmin = ConstGrid(Q.rows, Q.cols, -Q.gmax), !.dmax = ConstGrid(Q.rows, Q.cols, -Q.gmin),
+                       !.dmin8 = ConstGrid(Q.rows, Q.cols, -8 * Q.gmax), !.dmax8 = ConstGrid(Q.rows, Q.cols, -8 * Q.gmin),
                        !.gmin = -Q.gmax, !.gmax = -Q.gmin]
 Wider(Q) == [Q EXCEPT !.gmin = Q.gmin - 1, !.gmax = Q.gmax + 1]
 
